@@ -37,7 +37,7 @@ func (c08) Batches(tier string, seed uint64) []core.Batch {
 
 func (c08) Mandatory(tier string) []string {
 	return []string{"shape:single", "shape:multi", "shape:interior-empty", "shape:empty-run>=2", "shape:indented", "shape:trailing-empty-line", "shape:trailing-NL", "shape:no-trailing-NL",
-		"shape:empty-value", "shape:hash-line", "cycle:documents", "cycle:with-continuations", "encoder:one-by-one", "encoder:slice", "encoder:n>=2"}
+		"shape:empty-value", "shape:hash-line", "cycle:documents", "cycle:with-continuations", "encoder:one-by-one", "encoder:slice", "encoder:mixed-call-sequence", "encoder:n>=2", "shape:line>=4096-bytes"}
 }
 
 type c08Field struct {
@@ -137,6 +137,9 @@ func (p c08) paraCase(c *core.C, fields []c08Field) {
 			}
 			if strings.HasPrefix(l, "#") {
 				c.Cover("shape:hash-line")
+			}
+			if len(l) >= 4096 {
+				c.Cover("shape:line>=4096-bytes")
 			}
 		}
 		if n > 0 {
@@ -257,7 +260,59 @@ type encS struct {
 	D string `control:"Description"`
 }
 
+// encoderMixed: one Encoder, a sequence of Encode calls each taking a
+// single struct, a pointer or a slice (possibly empty).
+func (p c08) encoderMixed(c *core.C, items []encS, cuts []int) {
+	var buf bytes.Buffer
+	enc, _ := control.NewEncoder(&buf)
+	i, call := 0, 0
+	desc := ""
+	for i < len(items) {
+		n := cuts[call%len(cuts)]
+		call++
+		var err error
+		switch {
+		case n == 0:
+			err = enc.Encode([]encS{})
+			desc += "[] "
+		case n == 1 && call%2 == 0:
+			err = enc.Encode(&items[i])
+			desc += "* "
+			i++
+		case n == 1:
+			err = enc.Encode(items[i])
+			desc += "1 "
+			i++
+		default:
+			if i+n > len(items) {
+				n = len(items) - i
+			}
+			err = enc.Encode(items[i : i+n])
+			desc += fmt.Sprintf("[%d] ", n)
+			i += n
+		}
+		if err != nil {
+			c.Failf("Encode failed in call sequence %s: %v", desc, err)
+			return
+		}
+	}
+	got, err := c07Read("All", "string", buf.String(), 1)
+	if err != nil {
+		c.Failf("Encode call sequence %s: output rejected by the reader: %v\noutput: %q", desc, err, buf.String())
+		return
+	}
+	if len(got) != len(items) {
+		c.Failf("Encode call sequence %s: %d structs written, %d paragraphs read back\noutput: %q", desc, len(items), len(got), buf.String())
+	}
+	c.Cover("encoder:mixed-call-sequence")
+}
+
 func (p c08) encoderCase(c *core.C, items []encS) {
+	cr := core.NewRand(uint64(len(items))*977+uint64(len(items[0].A)), "cuts")
+	for k := 0; k < 3; k++ {
+		cuts := []int{cr.Range(0, 3), cr.Range(1, 3), cr.Range(0, 2), 1, cr.Range(1, 3)}
+		p.encoderMixed(c, items, cuts)
+	}
 	for _, mode := range []string{"one-by-one", "slice"} {
 		var buf bytes.Buffer
 		enc, err := control.NewEncoder(&buf)
